@@ -527,9 +527,16 @@ func Run(w *sim.World, opt Options) *Outcome {
 	// server favoured, clients wait; once a new leader exists the network heals and the next
 	// request is usually a Get of that key (NextReq): acknowledged writes must survive
 	deposing, ackStep, deposed := false, -1, 0
+	calm := !flap && !hunt && w.Choose(sim.KCfg, 2) == 1
+	if calm && w.Choose(sim.KCfg, 3) != 0 {
+		patient = true // two thirds of the calm runs depose leaders after acknowledged Puts
+	}
 	if patient && (flap || hunt || n < 3) {
 		patient = false
 	}
+	// how long after the acknowledgement the leader is cut off: at once (followers have not
+	// heard of the commit yet), a little later, or when they usually have
+	deposeWait := []int{3, 25, 80}[w.Choose(sim.KCfg, 3)]
 	if patient {
 		max += 1500
 		out.Probes["depose_mode"]++
@@ -540,7 +547,7 @@ func Run(w *sim.World, opt Options) *Outcome {
 	// hardly any request is re-sent; leader changes come from the depose adversary, crashes
 	// and the final phase instead of from constant time-out noise
 	var baseTimeoutP0 func(int) float64
-	if !flap && !hunt && w.Choose(sim.KCfg, 2) == 1 {
+	if calm {
 		baseTimeoutP0 = calmTimeout
 		r.TimeoutP0 = calmTimeout
 		r.CoinP0 = 0.99
@@ -606,7 +613,7 @@ func Run(w *sim.World, opt Options) *Outcome {
 				if ackStep < 0 {
 					ackStep = out.Steps
 				}
-				if out.Steps-ackStep > 80 { // followers have heard of the commit by now, usually
+				if out.Steps-ackStep > deposeWait {
 					leader := 0
 					for i := 1; i <= n; i++ {
 						if r.G("state", i).AsString() == "leader" {
